@@ -123,10 +123,24 @@ REQUIRED_COUNTERS = (
      'label_sign_checked', 'padded_shapes_checked', 'scaler_unmap_roundtrips',
      'fmap_roundtrips', 't2mi_to_trials_checked', 'dtc_to_trials_checked',
      'dtc_factory_used']
-    + ['rt:' + opt_key('DTC', t) for t in DTC_TUPLES]
+    )
+# The per-option-tuple counters ('rt:<tuple>', 'arb:<tuple>') stay in the evidence,
+# but a starved shard on a loaded machine must not turn the whole run
+# INCONCLUSIVE: post_merge() demands that at least 90% of the tuples were
+# exercised instead of every single one.
+PER_TUPLE_COUNTERS = (
+    ['rt:' + opt_key('DTC', t) for t in DTC_TUPLES]
     + ['rt:' + opt_key('T2A', t) for t in T2A_TUPLES]
     + ['arb:' + opt_key('DTC', t) for t in DTC_TUPLES if t['clip']]
     + ['arb:' + opt_key('T2A', t) for t in T2A_TUPLES if t['clip']])
+
+
+def post_merge(tier, counters, violations, inconclusive):
+  seen = sum(1 for k in PER_TUPLE_COUNTERS if counters.get(k))
+  counters['option_tuples_exercised'] = seen
+  counters['option_tuples_total'] = len(PER_TUPLE_COUNTERS)
+  if seen < 0.9 * len(PER_TUPLE_COUNTERS):
+    inconclusive.append(f'only {seen} of {len(PER_TUPLE_COUNTERS)} converter option tuples were exercised')
 
 
 def plan(tier, seed):
